@@ -141,3 +141,128 @@ package bgv
 //@ afunc Encoder.DecodeRingT
 //@   trusted opaque at the abstract level: writes the caller's value slice only
 //@   assigns
+
+//@ afunc Evaluator.matchScalesBinary
+//@   trusted number theory on two scales modulo t, outside the abstract engine: two small factors r0, r1 (and a residue), functions of the two scales
+//@   assigns
+//@   ensures r0 == uf_msb0(scale0, scale1) && r1 == uf_msb1(scale0, scale1)
+
+// ==== property C05, per-call clauses: what one evaluator call does to ring elements and metadata ====
+// ---- ciphertext +- ciphertext at equal scales, degrees (1,1), (1,2), (2,1): component by component
+// ---- the sum / difference in the ring; a component only the second operand has is copied (Add) or
+// ---- NEGATED (Sub) (finding F39); the output has the larger degree and the common scale
+//@ afunc Evaluator.Sub#ct
+//@   property C05
+//@   dyn op1 *rlwe.Ciphertext
+//@   case len(op0.Value) == 2 && len(op1.Value) == 2 && len(opOut.Value) == 2
+//@   case len(op0.Value) == 2 && len(op1.Value) == 3 && len(opOut.Value) == 3
+//@   case len(op0.Value) == 3 && len(op1.Value) == 2 && len(opOut.Value) == 3
+//@   case len(op0.Value) == 2 && len(op1.Value) == 3 && len(opOut.Value) == 2
+//@   requires old(cmpval(op0.MetaData.PlaintextMetaData.Scale, op1.MetaData.PlaintextMetaData.Scale)) == 0
+//@   requires isntt(op0.Value[0]) && isntt(op0.Value[1]) && isntt(op1.Value[0]) && isntt(op1.Value[1]) && mexp(op0.Value[0]) == 0 && mexp(op0.Value[1]) == 0 && mexp(op1.Value[0]) == 0 && mexp(op1.Value[1]) == 0
+//@   ensures implies(isnil(err), val(opOut.Value[0]) == old(val(op0.Value[0])) - old(val(op1.Value[0])) && val(opOut.Value[1]) == old(val(op0.Value[1])) - old(val(op1.Value[1])))
+//@   ensures implies(isnil(err) && len(op0.Value) == 3 && len(op1.Value) == 2, len(opOut.Value) == 3 && val(opOut.Value[2]) == old(val(op0.Value[2])))
+//@   ensures implies(isnil(err) && len(op0.Value) == 2 && len(op1.Value) == 3, len(opOut.Value) == 3 && val(opOut.Value[2]) == 0 - old(val(op1.Value[2])))
+//@   ensures implies(isnil(err) && len(op0.Value) == 2 && len(op1.Value) == 2, len(opOut.Value) == 2)
+
+//@ afunc Evaluator.Add#ct
+//@   property C05
+//@   dyn op1 *rlwe.Ciphertext
+//@   case len(op0.Value) == 2 && len(op1.Value) == 2 && len(opOut.Value) == 2
+//@   case len(op0.Value) == 2 && len(op1.Value) == 3 && len(opOut.Value) == 3
+//@   case len(op0.Value) == 3 && len(op1.Value) == 2 && len(opOut.Value) == 3
+//@   case len(op0.Value) == 2 && len(op1.Value) == 3 && len(opOut.Value) == 2
+//@   requires old(cmpval(op0.MetaData.PlaintextMetaData.Scale, op1.MetaData.PlaintextMetaData.Scale)) == 0
+//@   requires isntt(op0.Value[0]) && isntt(op0.Value[1]) && isntt(op1.Value[0]) && isntt(op1.Value[1]) && mexp(op0.Value[0]) == 0 && mexp(op0.Value[1]) == 0 && mexp(op1.Value[0]) == 0 && mexp(op1.Value[1]) == 0
+//@   ensures implies(isnil(err), val(opOut.Value[0]) == old(val(op0.Value[0])) + old(val(op1.Value[0])) && val(opOut.Value[1]) == old(val(op0.Value[1])) + old(val(op1.Value[1])))
+//@   ensures implies(isnil(err) && len(op0.Value) == 3 && len(op1.Value) == 2, len(opOut.Value) == 3 && val(opOut.Value[2]) == old(val(op0.Value[2])))
+//@   ensures implies(isnil(err) && len(op0.Value) == 2 && len(op1.Value) == 3, len(opOut.Value) == 3 && val(opOut.Value[2]) == old(val(op1.Value[2])))
+//@   ensures implies(isnil(err) && len(op0.Value) == 2 && len(op1.Value) == 2, len(opOut.Value) == 2)
+
+// ---- ciphertext (+, -, *) integer scalar: the scalar is applied at the scale of the ciphertext, so the
+// ---- output records the scale of the input whatever the receiver held (finding F34); the components
+// ---- an addition does not touch are copied
+//@ afunc Evaluator.Add#scalarscale
+//@   property C05
+//@   dyn op1 *big.Int
+//@   case len(op0.Value) == 2 && len(opOut.Value) == 2
+//@   case len(op0.Value) == 3 && len(opOut.Value) == 2
+//@   case len(op0.Value) == 2 && len(opOut.Value) == 3
+//@   ensures implies(isnil(err), sameval(opOut.MetaData.PlaintextMetaData.Scale, old(op0.MetaData.PlaintextMetaData.Scale)))
+//@   ensures implies(isnil(err), len(opOut.Value) == len(op0.Value) && val(opOut.Value[1]) == old(val(op0.Value[1])))
+
+//@ afunc Evaluator.Sub#scalarscale
+//@   property C05
+//@   dyn op1 *big.Int
+//@   case len(op0.Value) == 2 && len(opOut.Value) == 2
+//@   case len(op0.Value) == 3 && len(opOut.Value) == 2
+//@   case len(op0.Value) == 2 && len(opOut.Value) == 3
+//@   ensures implies(isnil(err), sameval(opOut.MetaData.PlaintextMetaData.Scale, old(op0.MetaData.PlaintextMetaData.Scale)))
+//@   ensures implies(isnil(err), len(opOut.Value) == len(op0.Value) && val(opOut.Value[1]) == old(val(op0.Value[1])))
+
+//@ afunc Evaluator.Mul#scalarscale
+//@   property C05
+//@   dyn op1 *big.Int
+//@   case len(op0.Value) == 2 && len(opOut.Value) == 2
+//@   case len(op0.Value) == 3 && len(opOut.Value) == 2
+//@   case len(op0.Value) == 2 && len(opOut.Value) == 3
+//@   ensures implies(isnil(err), sameval(opOut.MetaData.PlaintextMetaData.Scale, old(op0.MetaData.PlaintextMetaData.Scale)))
+//@   ensures implies(isnil(err), len(opOut.Value) == len(op0.Value))
+
+// ---- ciphertext +- ciphertext at DIFFERENT scales: both operands are brought to a common scale by the
+// ---- two factors r0, r1 of matchScalesBinary, the result is r0*op0 +- r1*op1 component by component -
+// ---- also when the receiver is the second operand (finding F32) - and missing components count as zero
+//@ afunc Evaluator.Sub#ctscaled
+//@   property C05
+//@   dyn op1 *rlwe.Ciphertext
+//@   case len(op0.Value) == 2 && len(op1.Value) == 2 && len(opOut.Value) == 2
+//@   case len(op0.Value) == 2 && len(op1.Value) == 2 ; alias opOut = op1
+//@   case len(op0.Value) == 2 && len(op1.Value) == 2 ; alias opOut = op0
+//@   case len(op0.Value) == 2 && len(op1.Value) == 3 && len(opOut.Value) == 3
+//@   case len(op0.Value) == 3 && len(op1.Value) == 2 && len(opOut.Value) == 3
+//@   let s0 = old(uf_scale64(contentid(op0.MetaData.PlaintextMetaData.Scale)))
+//@   let s1 = old(uf_scale64(contentid(op1.MetaData.PlaintextMetaData.Scale)))
+//@   let r0 = uf_msb0(s0, s1)
+//@   let r1 = uf_msb1(s0, s1)
+//@   requires old(cmpval(op0.MetaData.PlaintextMetaData.Scale, op1.MetaData.PlaintextMetaData.Scale)) != 0
+//@   requires isntt(op0.Value[0]) && isntt(op0.Value[1]) && isntt(op1.Value[0]) && isntt(op1.Value[1]) && mexp(op0.Value[0]) == 0 && mexp(op0.Value[1]) == 0 && mexp(op1.Value[0]) == 0 && mexp(op1.Value[1]) == 0
+//@   requires implies(len(op1.Value) == 3, isntt(op1.Value[2]) && mexp(op1.Value[2]) == 0)
+//@   ensures implies(isnil(err), val(opOut.Value[0]) == r0 * old(val(op0.Value[0])) - r1 * old(val(op1.Value[0])) && val(opOut.Value[1]) == r0 * old(val(op0.Value[1])) - r1 * old(val(op1.Value[1])))
+//@   ensures implies(isnil(err) && len(op0.Value) == 3 && len(op1.Value) == 2, val(opOut.Value[2]) == r0 * old(val(op0.Value[2])))
+//@   ensures implies(isnil(err) && len(op0.Value) == 2 && len(op1.Value) == 3, val(opOut.Value[2]) == 0 - r1 * old(val(op1.Value[2])))
+
+//@ afunc Evaluator.Add#ctscaled
+//@   property C05
+//@   dyn op1 *rlwe.Ciphertext
+//@   case len(op0.Value) == 2 && len(op1.Value) == 2 && len(opOut.Value) == 2
+//@   case len(op0.Value) == 2 && len(op1.Value) == 2 ; alias opOut = op1
+//@   case len(op0.Value) == 2 && len(op1.Value) == 2 ; alias opOut = op0
+//@   case len(op0.Value) == 2 && len(op1.Value) == 3 && len(opOut.Value) == 3
+//@   case len(op0.Value) == 3 && len(op1.Value) == 2 && len(opOut.Value) == 3
+//@   let s0 = old(uf_scale64(contentid(op0.MetaData.PlaintextMetaData.Scale)))
+//@   let s1 = old(uf_scale64(contentid(op1.MetaData.PlaintextMetaData.Scale)))
+//@   let r0 = uf_msb0(s0, s1)
+//@   let r1 = uf_msb1(s0, s1)
+//@   requires old(cmpval(op0.MetaData.PlaintextMetaData.Scale, op1.MetaData.PlaintextMetaData.Scale)) != 0
+//@   requires isntt(op0.Value[0]) && isntt(op0.Value[1]) && isntt(op1.Value[0]) && isntt(op1.Value[1]) && mexp(op0.Value[0]) == 0 && mexp(op0.Value[1]) == 0 && mexp(op1.Value[0]) == 0 && mexp(op1.Value[1]) == 0
+//@   requires implies(len(op1.Value) == 3, isntt(op1.Value[2]) && mexp(op1.Value[2]) == 0)
+//@   ensures implies(isnil(err), val(opOut.Value[0]) == r0 * old(val(op0.Value[0])) + r1 * old(val(op1.Value[0])) && val(opOut.Value[1]) == r0 * old(val(op0.Value[1])) + r1 * old(val(op1.Value[1])))
+//@   ensures implies(isnil(err) && len(op0.Value) == 3 && len(op1.Value) == 2, val(opOut.Value[2]) == r0 * old(val(op0.Value[2])))
+//@   ensures implies(isnil(err) && len(op0.Value) == 2 && len(op1.Value) == 3, val(opOut.Value[2]) == r1 * old(val(op1.Value[2])))
+
+// ---- Rescale (property C05: "the level, degree and scale recorded on the output are the ones the
+// ---- operation documents ... no level left to rescale [is] reported as [an error] instead of a panic or
+// ---- a wrong value"): on success the receiver has the degree of the input, whatever degree it had
+// ---- (finding F40: the loop ran over the components of the receiver), one level less, and the
+// ---- input's flags; an input at level 0 is refused
+//@ afunc Evaluator.Rescale
+//@   property C05
+//@   safety index
+//@   case len(op0.Value) == 2 && len(opOut.Value) == 2 && !eval.ScaleInvariant
+//@   case len(op0.Value) == 3 && len(opOut.Value) == 2 && !eval.ScaleInvariant
+//@   case len(op0.Value) == 2 && len(opOut.Value) == 3 && !eval.ScaleInvariant
+//@   case len(op0.Value) == 3 && !eval.ScaleInvariant ; alias opOut = op0
+//@   requires len(op0.Value[0].Coeffs) >= 1 && len(opOut.Value[0].Coeffs) >= 1
+//@   ensures implies(isnil(err), len(opOut.Value) == len(op0.Value))
+//@   ensures implies(isnil(err), iff(opOut.MetaData.CiphertextMetaData.IsNTT, old(op0.MetaData.CiphertextMetaData.IsNTT)) && iff(opOut.MetaData.PlaintextMetaData.IsBatched, old(op0.MetaData.PlaintextMetaData.IsBatched)))
+//@   ensures implies(old(len(op0.Value[0].Coeffs)) == 1, !isnil(err))
